@@ -101,6 +101,7 @@ class Engine:
         self.feas_timeout = 2000
         self.stats = {"feasible_calls": 0, "paths": 0}
         self.round_axioms = []
+        self.async_faults = []      # e.g. ["KeyboardInterrupt"]: injected before every statement outside `finally`
         self.globals_obj = None     # Ref of the heap object holding the mutable module globals of the function's module
 
     # ------------------------------------------------------------------ utilities
@@ -1130,6 +1131,10 @@ class Engine:
                 if kind != "normal":
                     nxt.append((kind, val, s))
                 else:
+                    if self.async_faults and not self.finally_depth and not isinstance(stmt, (ast.FunctionDef, ast.Pass)):
+                        # an asynchronous exception (signal handler) surfacing at this statement boundary
+                        for exc in self.async_faults:
+                            nxt.append(("raise", ExcVal(exc), self.fork(s)))
                     nxt += self.ex(stmt, s)
             frontier = nxt
         return frontier
